@@ -237,55 +237,76 @@ DEFAULT = {'\\': 0, '{': 1, '}': 2, '$': 3, '&': 4, '\n': 5, '#': 6, '^': 7, '_'
 for _c in 'abcdefghijklmnopqrstuvwxyzABCDEFGHIJKLMNOPQRSTUVWXYZ':
     DEFAULT[_c] = 11
 
-PRE_B = ('\\documentclass{article}\\newcommand{\\zzm}[1]{\\gamma #1\\delta }\\begin{document}\n\n')
+PRE_B = '\\newcommand{\\zzm}[1]{\\gamma #1\\delta }\\begin{document}\n\n'
 
-LEAVES = ['x', '\\alpha ', '<', '>', "y'", '\\,', '\\quad ', '2']
+LEAVES = ['x', '\\alpha ', '<', '>', "y'", '\\,', '\\quad ', '2', '\\sqrt x']
 SIBS = ['x', '\\alpha ']                   # representative siblings of the deep child of a binary node
-UNARY = ['sup', 'sub', 'sqrt', 'lr', 'mbox', 'text', 'zzm', 'grp']
+UNARY = ['sup', 'sub', 'sqrt', 'lr', 'mbox', 'text', 'zzm', 'grp', 'arrh']
 BINARY = ['supsub', 'subsup', 'frac', 'sqrtn', 'arr', 'jux']
-CONTEXTS = ['dollar', 'paren', 'bracket', 'equation', 'textbf']
+CONTEXTS = ['dollar', 'paren', 'bracket', 'equation', 'textbf', 'ddollar']
+
+FID_CHARSUB = 'C11.MATH_GROUP_CHARSUB'
+FID_TEXT = 'C11.TEXT_DOLLAR_CLOSES_MATH'
+FID_RULE = 'C11.ARRAY_TRAILING_RULE'
+APOS = '’'
 
 
-def pr(t, expand=False):
-    """print a formula tree; expand=True prints the user macro \\zzm expanded (on the AST)"""
+def pr(t, expand=False, cs=False, tr=False, sub=False):
+    """Print a formula tree.
+    expand -- print the user macro \\zzm{.} expanded (done on the AST: \\gamma . \\delta)
+    cs     -- deviation MATH_GROUP_CHARSUB: text that is a child node of a bare brace group or of an array cell has gone
+              through the text-mode character substitution (' -> U+2019); `sub` is the inherited state.  Arguments of
+              commands are rebuilt from their tokens and are not affected (a brace group inside one is)
+    tr     -- deviation ARRAY_TRAILING_RULE: an \\hline after the last \\\\ of an array is not reproduced"""
     if isinstance(t, str):
-        return t
+        return t.replace("'", APOS) if (cs and sub) else t
     op = t[0]
-    a = pr(t[1], expand)
-    b = pr(t[2], expand) if len(t) > 2 else None
+
+    def P(c, s):
+        return pr(c, expand, cs, tr, s)
     if op == 'sup':
-        return 'z^{%s}' % a
+        return 'z^{%s}' % P(t[1], False)
     if op == 'sub':
-        return 'z_{%s}' % a
+        return 'z_{%s}' % P(t[1], False)
     if op == 'sqrt':
-        return '\\sqrt{%s}' % a
+        return '\\sqrt{%s}' % P(t[1], False)
     if op == 'lr':
-        return '\\left( %s \\right]' % a
+        return '\\left( %s \\right]' % P(t[1], sub)
     if op == 'mbox':
-        return '\\mbox{t $%s$}' % a
+        return '\\mbox{t $%s$}' % P(t[1], False)
     if op == 'text':
-        return '\\text{u $%s$ v}' % a
+        return '\\text{u $%s$ v}' % P(t[1], False)
     if op == 'zzm':
-        return ('\\gamma %s\\delta ' % a) if expand else ('\\zzm{%s}' % a)
+        return ('\\gamma %s\\delta ' % P(t[1], sub)) if expand else ('\\zzm{%s}' % P(t[1], sub))
     if op == 'grp':
-        return '{%s}' % a
+        return '{%s}' % P(t[1], True)
+    if op == 'arrh':
+        return '\\begin{array}{|c|}\\hline %s\\\\\\hline a\\\\%s\\end{array}' % (P(t[1], True), '' if tr else '\\hline ')
     if op == 'supsub':
-        return 'z^{%s}_{%s}' % (a, b)
+        return 'z^{%s}_{%s}' % (P(t[1], False), P(t[2], False))
     if op == 'subsup':
-        return 'z_{%s}^{%s}' % (a, b)
+        return 'z_{%s}^{%s}' % (P(t[1], False), P(t[2], False))
     if op == 'frac':
-        return '\\frac{%s}{%s}' % (a, b)
+        return '\\frac{%s}{%s}' % (P(t[1], False), P(t[2], False))
     if op == 'sqrtn':
-        return '\\sqrt[%s]{%s}' % (('{%s}' % a) if ']' in a else a, b)
+        a = P(t[1], False)
+        if ']' in a:                        # the author protects a ] in the optional argument by a brace group
+            a = '{%s}' % P(t[1], True)
+        return '\\sqrt[%s]{%s}' % (a, P(t[2], False))
     if op == 'arr':
-        return '\\begin{array}{cc}%s&a\\\\b&%s\\end{array}' % (a, b)
+        return '\\begin{array}{cc}%s&a\\\\b&%s\\end{array}' % (P(t[1], True), P(t[2], True))
     if op == 'jux':
-        return '%s%s' % (a, b)
+        return '%s%s' % (P(t[1], sub), P(t[2], sub))
     raise ValueError(op)
 
 
 def depth(t):
     return 1 if isinstance(t, str) else 1 + max(depth(c) for c in t[1:])
+
+
+def as_tree(x):
+    """JSON round trip turns tuples into lists"""
+    return x if isinstance(x, str) else tuple(as_tree(c) for c in x)
 
 
 def trees(d):
@@ -310,6 +331,13 @@ def trees(d):
                     yield (op, s, c)
 
 
+def trees_op(d, op):
+    """trees of depth exactly d whose root is `op` ('leaf' for d == 1), in enumeration order"""
+    for t in trees(d):
+        if (op == 'leaf' and isinstance(t, str)) or (not isinstance(t, str) and t[0] == op):
+            yield t
+
+
 def wrap(ctx, f):
     if ctx == 'dollar':
         return '$%s$' % f
@@ -317,6 +345,8 @@ def wrap(ctx, f):
         return '\\(%s\\)' % f
     if ctx == 'bracket':
         return '\\[%s\\]' % f
+    if ctx == 'ddollar':
+        return '$$%s$$' % f
     if ctx == 'equation':
         return '\\begin{equation}%s\\end{equation}' % f
     if ctx == 'textbf':
@@ -325,23 +355,39 @@ def wrap(ctx, f):
 
 
 def toks(s):
-    """reference token stream with blanks dropped"""
+    """reference token stream (C01 reference lexer, default category table) with blanks dropped"""
     r = LX.lex(s, DEFAULT)
     if isinstance(r, str):
         return r
     return [t for t in r if t[0] != 10]
 
 
+def expected_from_print(ctx, f):
+    """(source tokens, mathjax_source tokens) for the printed formula f: inline formulas are reconstructed between
+    $ $ (mathjax: \\( \\)), displays between \\[ \\], equation keeps its \\begin/\\end; mathjax maps < > to \\lt \\gt"""
+    if ctx in ('dollar', 'paren', 'textbf'):
+        src = '$%s$' % f
+        mj = '\\(%s\\)' % f
+    elif ctx in ('bracket', 'ddollar'):
+        src = mj = '\\[%s\\]' % f
+    else:
+        src = mj = '\\begin{equation}%s\\end{equation}' % f
+    es = toks(src)
+    em = [((0, 'lt') if k == (12, '<') else (0, 'gt') if k == (12, '>') else k) for k in toks(mj)]
+    return es, em
+
+
 def b_expected(ctx, t):
-    return _expected_from_print(ctx, pr(t, True))
+    return expected_from_print(ctx, pr(t, True))
 
 
-B_TAG = {'dollar': 'math', 'paren': 'math', 'bracket': 'displaymath', 'equation': 'equation', 'textbf': 'textbf'}
+B_TAG = {'dollar': 'math', 'paren': 'math', 'bracket': 'displaymath', 'ddollar': 'displaymath', 'equation': 'equation',
+         'textbf': 'textbf'}
 MATHTAGS = ('math', 'displaymath', 'equation')
 
 
 def b_observe(ctx, ts):
-    """-> list of (source tokens, mathjax tokens) per formula, document text depth; or 'raises:..'"""
+    """one document with one paragraph per formula -> ([(source tokens, mathjax tokens)...], context depth) or 'raises:..'"""
     src = PRE_B + ''.join('x %s y\n\n' % wrap(ctx, pr(t)) for t in ts)
     try:
         doc = parse_doc(src, 20.0 + 0.02 * len(ts))
@@ -370,26 +416,6 @@ def b_observe(ctx, ts):
         return 'raises:%s' % type(e).__name__
 
 
-FID_CHARSUB = 'C11.MATH_GROUP_CHARSUB'
-FID_TEXT = 'C11.TEXT_DOLLAR_CLOSES_MATH'
-APOS = '’'
-
-
-def pr_charsub(t, sub=False):
-    """expanded print under deviation MATH_GROUP_CHARSUB: text that is a child node (not argument source) of a bare
-    brace group or of an array cell has gone through the text-mode character substitution (' -> U+2019)"""
-    if isinstance(t, str):
-        return t.replace("'", APOS) if sub else t
-    op = t[0]
-    if op in ('lr', 'zzm', 'jux'):          # siblings of the surrounding material: inherit
-        args = [pr_charsub(c, sub) for c in t[1:]]
-    elif op == 'grp' or op == 'arr':
-        args = [pr_charsub(c, True) for c in t[1:]]
-    else:                                   # argument source: rebuilt from tokens
-        args = [pr_charsub(c, False) for c in t[1:]]
-    return pr((op,) + tuple(args), True)
-
-
 def text_in_dollar(t, inline):
     """does the tree hold a \\text{.. $..$ ..} whose nearest enclosing math opener is a $ (inline = opener state)"""
     if isinstance(t, str):
@@ -404,33 +430,239 @@ def text_in_dollar(t, inline):
     return any(text_in_dollar(c, inline) for c in t[1:])
 
 
+def b_classify(ctx, t, item):
+    """item = (source tokens, mathjax tokens) observed for tree t in a document whose structure is intact
+    -> (verdict, fids, detail)"""
+    strict = pr(t, True)
+    if item == expected_from_print(ctx, strict):
+        return 'ok', [], ''
+    for cs, tr in ((True, False), (False, True), (True, True)):
+        f = pr(t, True, cs, tr)
+        if f != strict and item == expected_from_print(ctx, f):
+            fids = ([FID_CHARSUB] if cs else []) + ([FID_RULE] if tr else [])
+            why = []
+            if cs:
+                why.append('text-mode character substitution inside a brace group / array cell of a formula: the '
+                           'reconstructed source has U+2019 for the prime')
+            if tr:
+                why.append('the \\hline after the last \\\\ of an array is missing from the reconstructed source')
+            return 'known', fids, '; '.join(why)
+    return 'violation', [], 'source / mathjax_source token stream differs from the printed formula'
+
+
 def b_judge(ctx, t):
-    es, em = b_expected(ctx, t)
-    exp = ([(es, em)], 2)
+    """-> (verdict, fids, expected, observed, detail) on a document holding only this formula"""
+    exp = ([b_expected(ctx, t)], 2)
     obs = b_observe(ctx, [t])
     if obs == exp:
-        return 'ok', None, exp, obs, ''
+        return 'ok', [], exp, obs, ''
     if text_in_dollar(t, ctx in ('dollar', 'textbf')):
-        return 'known', FID_TEXT, exp, obs, ('\\text is not a box command: a $ inside \\text{} that is itself inside $...$ '
-                                             'closes the outer formula; resulting structure not modelled')
+        return 'known', [FID_TEXT], exp, obs, ('\\text is not a box command: a $ inside \\text{} that is itself inside $...$ '
+                                               'closes the outer formula; resulting structure not modelled')
     if not isinstance(obs, str) and len(obs[0]) == 1 and obs[1] == 2:
-        f = pr_charsub(t)
-        if f != pr(t, True):
-            ds, dm = _expected_from_print(ctx, f)
-            if obs[0][0] == (ds, dm):
-                return 'known', FID_CHARSUB, exp, obs, ('text-mode character substitution applied inside a brace group / '
-                                                        'array cell of a formula: source has U+2019 for the prime')
-    return 'violation', None, exp, obs, 'source / mathjax_source token stream differs from the printed formula'
+        v, fids, detail = b_classify(ctx, t, obs[0][0])
+        return v, fids, exp, obs, detail
+    return 'violation', [], exp, obs, 'formula node missing / document structure or group depth wrong'
 
 
-def _expected_from_print(ctx, f):
-    if ctx in ('dollar', 'paren', 'textbf'):
-        src = '$%s$' % f
-        mj = '\\(%s\\)' % f
-    elif ctx == 'bracket':
-        src = mj = '\\[%s\\]' % f
+BATCH_B = 100
+
+
+def b_run_block(block):
+    """block = ('b', ctx, depth, op, lo, hi): trees of exactly that depth with that root operator ('leaf' for depth 1),
+    index range [lo, hi) of the enumeration"""
+    _, ctx, d, op, lo, hi = block
+    rep = core.Report()
+    ts = list(itertools.islice(trees_op(d, op), lo, hi))
+    inline = ctx in ('dollar', 'textbf')
+    suspects = [t for t in ts if text_in_dollar(t, inline)]
+    normal = [t for t in ts if not text_in_dollar(t, inline)]
+
+    def record(t, v, fids, e, o, detail, outcome):
+        rep.case(key=(ctx, pr(t)), nontrivial=not isinstance(t, str), outcome=outcome)
+        rep.count('b_' + ctx)
+        case = {'part': 'b', 'ctx': ctx, 'tree': t}
+        if v == 'known':
+            for fid in fids:
+                rep.known_finding(fid, case, detail)
+            rep.count('b_known')
+        elif v == 'violation':
+            rep.violation(case, e, o, detail)
+
+    def single(t):
+        v, fids, e, o, detail = b_judge(ctx, t)
+        rep.count('b_single_documents')
+        record(t, v, fids, e, o, detail, (ctx, repr(o)))
+
+    def run(batch, bisect):
+        if not batch:
+            return
+        if len(batch) == 1:
+            single(batch[0])
+            return
+        obs = b_observe(ctx, batch)
+        if not isinstance(obs, str) and len(obs[0]) == len(batch) and obs[1] == 2:
+            for t, item in zip(batch, obs[0]):
+                v, fids, detail = b_classify(ctx, t, item)
+                if v == 'violation':
+                    single(t)           # confirm on its own document (this is what replay does)
+                else:
+                    record(t, v, fids, None, None, detail, (ctx, tuple(item[0])))
+                    if v == 'ok':
+                        for o_ in set(_ops(t)):
+                            rep.count('b_op_' + o_)
+                        if len(rep.samples) < 2 and depth(t) >= 3:
+                            rep.sample({'ctx': ctx, 'formula': pr(t), 'source_tokens': len(item[0])})
+            return
+        if bisect:
+            h = len(batch) // 2
+            run(batch[:h], True)
+            run(batch[h:], True)
+        else:
+            for t in batch:
+                single(t)
+
+    for ch in core.chunks(normal, BATCH_B):
+        run(ch, True)
+    for ch in core.chunks(suspects, BATCH_B):
+        run(ch, False)
+    return rep.close_block()
+
+
+def _ops(t):
+    if isinstance(t, str):
+        return []
+    r = [t[0]]
+    for c in t[1:]:
+        r += _ops(c)
+    return r
+
+
+# ---------------------------------------------------------------------------------------------------------
+def run_block(block):
+    return a_run_block(block) if block[0] == 'a' else b_run_block(block)
+
+
+def _all_open(fids):
+    f = core.Findings()
+    return [x for x in fids if not f.is_open(x)]
+
+
+def replay(case):
+    if case['part'] == 'a':
+        v, fid, exp, obs, detail = a_judge(case['kind'], case['d'], case['body'])
+        fids = [fid] if fid else []
+        src = PRE + a_unit(case['kind'], case['d'], case['body'])
     else:
-        src = mj = '\\begin{equation}%s\\end{equation}' % f
-    es = toks(src)
-    em = [((0, 'lt') if k == (12, '<') else (0, 'gt') if k == (12, '>') else k) for k in toks(mj)]
-    return es, em
+        t = as_tree(case['tree'])
+        v, fids, exp, obs, detail = b_judge(case['ctx'], t)
+        src = PRE_B + 'x %s y\n\n' % wrap(case['ctx'], pr(t))
+    detail = '%s | document: %r' % (detail, src)
+    if v == 'known':
+        notopen = _all_open(fids)
+        if notopen:
+            return {'verdict': 'violation', 'expected': exp, 'observed': obs,
+                    'detail': 'only explained by deviations not listed as open: %s | %s' % (notopen, detail)}
+        return {'verdict': 'known', 'fid': fids[0], 'fids': fids, 'expected': exp, 'observed': obs, 'detail': detail}
+    return {'verdict': v, 'expected': exp, 'observed': obs, 'detail': detail}
+
+
+def run(tier, seed, rep):
+    state.pristine()
+    quick = tier == 'quick'
+    blocks = []
+    bounds = {}
+
+    # ---- (a)
+    L = 4 if quick else 5
+    main = [('verbatim', ''), ('verbatim*', ''), ('verb', '|'), ('verb*', '|')]
+
+    def add_a(kind, d, alpha, maxlen, minlen=0, must=False):
+        n = len(a_alphabet(kind, d, alpha))
+        if maxlen <= 3:
+            if must:
+                for k in range(n):
+                    blocks.append(('a', kind, d, alpha, (k,), maxlen, max(minlen, 1), must))
+            else:
+                blocks.append(('a', kind, d, alpha, (), maxlen, minlen, must))
+            return
+        if minlen <= 1:
+            blocks.append(('a', kind, d, alpha, (), 1, minlen, must))
+        for k1 in range(n):
+            for k2 in range(n):
+                blocks.append(('a', kind, d, alpha, (k1, k2), maxlen, max(minlen, 2), must))
+
+    for kind, d in main:
+        add_a(kind, d, 'full', L)
+    bounds['a_full_alphabet'] = {'symbols': 20, 'max_len': L, 'constructs': ['verbatim', 'verbatim*', '\\verb|..|', '\\verb*|..|']}
+    red_kinds = [('verbatim', ''), ('verb', '|')]
+    for kind, d in red_kinds:
+        add_a(kind, d, 'red', L + 1, minlen=L + 1)
+    bounds['a_reduced_alphabet'] = {'symbols': 12, 'len': L + 1, 'constructs': ['verbatim', '\\verb|..|']}
+    Ld = 2 if quick else 3
+    for d in DELIMS:
+        if d == '|':
+            continue
+        for kind in ('verb', 'verb*'):
+            if Ld <= 2:
+                blocks.append(('a', kind, d, 'full', (), Ld, 0, False))
+            else:
+                blocks.append(('a', kind, d, 'full', (), 1, 0, False))
+                for k in range(len(a_alphabet(kind, d, 'full'))):
+                    blocks.append(('a', kind, d, 'full', (k,), Ld, 2, False))
+    bounds['a_delimiters'] = {'delimiters': len(DELIMS), 'max_len': Ld, 'forms': ['\\verb', '\\verb*']}
+    Le = 3 if quick else 4
+    for kind in ('verbatim', 'verbatim*'):
+        n = len(a_alphabet(kind, '', 'endcmd'))
+        if Le <= 3:
+            for k in range(n):
+                blocks.append(('a', kind, '', 'endcmd', (k,), Le, 1, True))
+        else:
+            blocks.append(('a', kind, '', 'endcmd', (n - 1,), 1, 1, True))
+            for k1 in range(n):
+                for k2 in range(n):
+                    blocks.append(('a', kind, '', 'endcmd', (k1, k2), Le, 2, True))
+    bounds['a_command_form_end_marker'] = {'symbols': 21, 'max_len': Le, 'must_contain': '\\end<env>'}
+
+    # ---- (b)
+    D = 3 if quick else 4
+    for ctx in CONTEXTS:
+        dmax = D if ctx != 'ddollar' else 3
+        blocks.append(('b', ctx, 1, 'leaf', 0, len(LEAVES)))
+        for d in range(2, dmax + 1):
+            for op in UNARY + BINARY:
+                n = sum(1 for _ in trees_op(d, op))
+                for lo in range(0, n, 2000):
+                    blocks.append(('b', ctx, d, op, lo, min(n, lo + 2000)))
+    bounds['b_formulas'] = {'max_depth': D, 'contexts': CONTEXTS, 'extra_context_ddollar_max_depth': 3,
+                            'leaves': len(LEAVES), 'unary': len(UNARY), 'binary': len(BINARY)}
+    blocks = core.rotate(blocks, seed)
+    core.merge_all(run_block, blocks, rep, chunksize=1)
+    return {'exhaustive': True, 'bounds': bounds, 'blocks': len(blocks),
+            'floors': {'evaluations': 900000 if quick else 15000000, 'a_with_partial_end_marker': 100000,
+                       'b_op_arr': 1000, 'b_op_mbox': 1000, 'b_op_zzm': 1000, 'b_op_sqrtn': 1000}}
+
+
+RULE = ('(a) bodies = strings over 16 characters (\\ { } % # & $ ^ ~ blank newline ` - e n d) + 4 composite symbols (\\end, '
+        '\\end{NAME without }, \\end{NAME minus last letter}, ^^M), every symbol sequence of length <= L (quick 4, thorough 5), each '
+        'string once (longest-match spelling), never containing the full end delimiter, as body of verbatim, verbatim*, '
+        '\\verb|..| and \\verb*|..|; length L+1 over a reduced 8+4 alphabet for verbatim and \\verb; every other printable '
+        'non-letter delimiter (40) for \\verb and \\verb* with all bodies of length <= 2 (3) not containing it; bodies of '
+        'length <= 3 (4) containing the command form \\endNAME. Observed: node.textContent, text after the construct '
+        '(x--..y--%c: dash ligature applied, comment skipped), context depth, verb.source. (b) formula trees of depth '
+        '<= 3 (4): 9 leaves, 9 unary and 6 binary operators (binary: all leaf pairs at depth 2, deeper one full child and '
+        'one representative sibling, both orders) in $ $, \\( \\), \\[ \\], equation, \\textbf{..$ $..} (and $$ $$ to depth 3); '
+        'source and mathjax_source re-tokenized with the reference lexer, blanks dropped, compared with the printed formula '
+        '(user macro expanded on the tree). Non-trivial: non-empty body / depth >= 2; distinct = distinct (construct, '
+        'delimiter, body) or (context, formula); outcomes = distinct observed contents / token streams')
+ASSUMPTIONS = [
+    'documents have no \\documentclass (\\begin{document} directly; measured identical behaviour, 3x cheaper); many cases share one '
+    'document (one unit per case) and are re-run alone only when the shared document disagrees with the prediction',
+    'the text after a construct is "processed normally" when the -- ligature is substituted, a % comment is skipped and the '
+    'context stack is back at the document level at end of input',
+    'inline formulas are reconstructed between $ $ (mathjax_source: \\( \\)), displays between \\[ \\]; < and > map to \\lt, \\gt',
+    'token comparison uses vp/refs/tex_lexer.py with the default LaTeX category table; blank (category 10) tokens dropped',
+    'binary formula nodes deeper than 2 take one arbitrary child and one of two representative leaves (x, \\alpha)',
+    'deviations VERB_DELIM_PRETOKENIZED (delimiters \\ % } and { with } in the body), ENDCMD_IN_BODY (after the cut) and '
+    'TEXT_DOLLAR_CLOSES_MATH leave the rest of the observation unconstrained: the remaining input is executed, not scanned',
+]
